@@ -86,6 +86,8 @@ fn one(run: u64, stream: u64, secs: i64) -> (Vec<Value>, u64, u64, u64, u64) {
                     if let Some(dir) = dirs.get_mut(&(from, info.to)) {
                         if !established {
                             dir.ev.push(json!({"op":"skip","why":"no established peer entry"}));
+                        } else if dir.base.map(|b| ctr <= b).unwrap_or(true) {
+                            dir.ev.push(json!({"op":"skip","why":"sealed before the recording started"}));
                         } else if let Some(base) = dir.base {
                             let class = sim.result_class(res);
                             let acc = matches!(class.as_str(), "data" | "nodeinfo" | "keepalive" | "close" | "none");
@@ -113,6 +115,25 @@ fn one(run: u64, stream: u64, secs: i64) -> (Vec<Value>, u64, u64, u64, u64) {
         }
     };
     handle_deliveries(&mut sim, &mut dirs, &mut rng, &mut replays);
+    // warm-up on a reliable network until every pair has ONE settled session (full mesh, no handshake pending for three
+    // rounds): while two nodes that dialled each other are still completing different attempts, datagrams sealed for
+    // the attempt that loses are refused for want of the key, not by the window.  Recording starts afterwards.
+    let mut calm = 0;
+    for _ in 0..60 {
+        sim.tick();
+        let pending: usize = (0..n).map(|i| sim.shape(i).1.len()).sum();
+        if sim.full_mesh() && pending == 0 {
+            calm += 1;
+            if calm >= 3 {
+                break;
+            }
+        } else {
+            calm = 0;
+        }
+    }
+    dirs.clear();
+    replays = 0;
+    sim.queue.retain(|m| m.id != 0); // replays scheduled during the warm-up are dropped
     sim.faults.p_delay = 0.15;
     sim.faults.max_delay = 3;
     let mut fno = 0u8;
